@@ -137,6 +137,23 @@ func c09(c *Ctx) {
 	c.msgIDFormula("R09.U")
 	// what is sent for a request is the encoder's rendering of that request, whole; what is decoded for a message is
 	// the message's body, whole
+	// the waiter and hint tables, the counters and the channels all live in the client object: two clients of one
+	// process (two accounts, two data centres) must not meet in a package variable
+	r.Rule("R09.P", "no function of the client (root package, utils, objects, messages, transport) writes a package-level variable or the storage of one outside init: every table, counter and channel is per client", 1)
+	{
+		var entries []*ssa.Function
+		for f := range c.P.AllFunctions() {
+			pp := load.FuncPkgPath(f)
+			if f.Synthetic != "" || len(f.Blocks) == 0 || f.Name() == "init" || strings.HasPrefix(f.Name(), "init#") {
+				continue
+			}
+			if pp == load.RootMod || pp == load.UtilsPkg || pp == load.ObjPkg || pp == load.MsgPkg || pp == load.TransPkg {
+				entries = append(entries, f)
+			}
+		}
+		sort.Slice(entries, func(i, j int) bool { return entries[i].String() < entries[j].String() })
+		c.noGlobalWrites("R09.P", entries, "the client's paths: two clients of one process would share it")
+	}
 	r.Rule("R09.B", "the body stored in the outgoing message is the result of tl.Marshal(request) itself, and the bytes handed to the decoder in processResponse are the message's GetMsg() itself (nothing trimmed, re-sliced or re-encoded in between)", 3)
 	if f := c.fn("R09.B", load.RootMod, "*MTProto", "sendPacket"); f != nil {
 		var body ssa.Value
